@@ -352,6 +352,12 @@ impl<H: HashImplementation> HashChainHolderImpl<H> {
 
                 best_len = match_length;
                 best_match = Some(r);
+
+                // a match of the maximum possible length cannot be beaten, and
+                // prefix_compare requires best_len < max_len
+                if best_len >= max_len {
+                    break;
+                }
             }
 
             max_chain -= 1;
